@@ -67,16 +67,16 @@ def _concat(repo, col):
         gci = _stores(ex, "global_comp_index")
         if cls == "Branch":
             want = "np.arange(self.ncomp).tolist()"
-            okc = bool(gci) and unparse(gci[0].node.ctx and gci[0].stmt.value) == want if gci else False
+            okc = bool(gci) and idx.same_expr(repo, fi, gci[0].stmt, gci[0].stmt.value, want)
         else:
-            okc = bool(gci) and unparse(gci[0].stmt.value) == "np.arange(self.cumsum_ncomp[-1])"
+            okc = bool(gci) and idx.same_expr(repo, fi, gci[0].stmt, gci[0].stmt.value, "np.arange(self.cumsum_ncomp[-1])")
         col.check(okc, R, fi, f"{cls}: global_comp_index = 0..n-1", "dense numbering in constituent order",
                   f"global_comp_index is {unparse(gci[0].stmt.value) if gci else None}", node=gci[0].node if gci else fi.node)
         gbi = _stores(ex, "global_branch_index")
         if cls == "Branch":
-            okb = bool(gbi) and unparse(gbi[0].stmt.value) == "[0] * self.ncomp"
+            okb = bool(gbi) and idx.same_expr(repo, fi, gbi[0].stmt, gbi[0].stmt.value, "[0] * self.ncomp")
         else:
-            okb = bool(gbi) and unparse(gbi[0].stmt.value) == "np.repeat(np.arange(self.total_nbranches), self.ncomp_per_branch).tolist()"
+            okb = bool(gbi) and idx.same_expr(repo, fi, gbi[0].stmt, gbi[0].stmt.value, "np.repeat(np.arange(self.total_nbranches), self.ncomp_per_branch).tolist()")
         col.check(okb, R, fi, f"{cls}: global_branch_index repeats branch b ncomp[b] times",
                   "np.repeat(arange(nbranches), ncomp_per_branch)", f"global_branch_index is {unparse(gbi[0].stmt.value) if gbi else None}",
                   node=gbi[0].node if gbi else fi.node)
@@ -85,9 +85,9 @@ def _concat(repo, col):
             t = unparse(gce[0].stmt.value) if gce else ""
             okx = "[[i] * int(cell.cumsum_ncomp[-1]) for i, cell in enumerate(cells)]" in t and "itertools.chain(*" in t
         elif cls == "Cell":
-            okx = bool(gce) and unparse(gce[0].stmt.value) == "np.repeat(0, self.cumsum_ncomp[-1]).tolist()"
+            okx = bool(gce) and idx.same_expr(repo, fi, gce[0].stmt, gce[0].stmt.value, "np.repeat(0, self.cumsum_ncomp[-1]).tolist()")
         else:
-            okx = bool(gce) and unparse(gce[0].stmt.value) == "[0] * self.ncomp"
+            okx = bool(gce) and idx.same_expr(repo, fi, gce[0].stmt, gce[0].stmt.value, "[0] * self.ncomp")
         col.check(okx, R, fi, f"{cls}: global_cell_index repeats cell c by its own number of compartments", "",
                   f"global_cell_index is {unparse(gce[0].stmt.value) if gce else None}", node=gce[0].node if gce else fi.node)
         # per-branch counts from the constituents, in order
@@ -98,7 +98,7 @@ def _concat(repo, col):
         col.check(t == want, R, fi, f"{cls}: ncomp_per_branch taken from the constituents in order", want,
                   f"ncomp_per_branch is {t}", node=npb[0].node if npb else fi.node)
         cs = [s for s in ex.stores if s.kind == "attr" and s.key.name == "cumsum_ncomp"]
-        col.check(bool(cs) and unparse(cs[0].stmt.value) == "cumsum_leading_zero(self.ncomp_per_branch)", R, fi,
+        col.check(bool(cs) and idx.same_expr(repo, fi, cs[0].stmt, cs[0].stmt.value, "cumsum_leading_zero(self.ncomp_per_branch)"), R, fi,
                   f"{cls}: cumsum_ncomp = cumsum_leading_zero(ncomp_per_branch)", "",
                   f"cumsum_ncomp is {unparse(cs[0].stmt.value) if cs else None}", node=cs[0].node if cs else fi.node)
     fi = repo.method("Network", "__init__")
@@ -118,14 +118,14 @@ def _offsets(repo, col):
     col.check(ok, R, fi, "parents: non-root entries of cell i are shifted by the branch offset of cell i",
               "p.at[1:].add(cumsum_nbranches[i])", f"comb_parents is {t}", node=cp[-1].node if cp else fi.node)
     par = next((n for n in walk_no_nested(fi.node) if isinstance(n, ast.Assign) and unparse(n.targets[0]) == "parents"), None)
-    col.check(par is not None and unparse(par.value) == "[cell.comb_parents for cell in cells]", R, fi,
+    col.check(par is not None and idx.same_expr(repo, fi, par, par.value, "[cell.comb_parents for cell in cells]"), R, fi,
               "parents are taken from the cells in order", "", f"parents is {unparse(par.value) if par else None}", node=par or fi.node)
     cb = [s for s in ex.stores if s.kind == "attr" and s.key.name == "_cumsum_nbranches"]
-    col.check(bool(cb) and unparse(cb[0].stmt.value) == "cumsum_leading_zero(self.nbranches_per_cell)", R, fi,
+    col.check(bool(cb) and idx.same_expr(repo, fi, cb[0].stmt, cb[0].stmt.value, "cumsum_leading_zero(self.nbranches_per_cell)"), R, fi,
               "branch offsets = leading-zero cumsum of the cells' branch counts", "", f"is {unparse(cb[0].stmt.value) if cb else None}",
               node=cb[0].node if cb else fi.node)
     nb = next((n for n in walk_no_nested(fi.node) if isinstance(n, ast.Assign) and unparse(n.targets[0]) == "nbranchpoints"), None)
-    ok = nb is not None and unparse(nb.value) == "jnp.asarray([len(cell._par_inds) for cell in cells])"
+    ok = nb is not None and idx.same_expr(repo, fi, nb, nb.value, "jnp.asarray([len(cell._par_inds) for cell in cells])")
     col.check(ok, R, fi, "branch points per cell = number of distinct parent branches of that cell", "",
               f"nbranchpoints is {unparse(nb.value) if nb else None}", node=nb or fi.node)
     from . import c01_solver as _c01s
